@@ -1080,3 +1080,12 @@ package mcp
 
 //@ func calculateReconnectDelay [C09]
 //@   modifies extern
+
+// scanEvents (the iterator it returns): an event is dispatched only when a blank line terminated it. The dispatch at
+// end of input after a non-blank line (known finding F5, pinned by the existing test "no trailing newline") hands a
+// cut-off event to the stream processor.
+//@ func scanEvents$1 [C09]
+//@   modifies *
+//@   callee yieldEvent: modifies *
+//@   callee yield: modifies *
+//@   assert at call yieldEvent: @only-terminated-events-are-dispatched len(local(line)) == 0
